@@ -335,7 +335,12 @@ namespace
 	   && a->get_import () != nullptr
 	   && (a = a->get_import ().get ()));
 
-    return std::make_unique <value_die> (a->get_dwctx (), par_die, 0, d);
+    // The parent lives in the same unit as the DIE that we found it for
+    // (which may be the DW_TAG_imported_unit that we left a partial unit
+    // through), and is thus reached through the same imports.
+    return std::make_unique <value_die>
+      (a->get_dwctx (), a->is_cooked () ? a->get_import () : nullptr,
+       par_die, 0, d);
   }
 }
 
